@@ -270,10 +270,13 @@ func programs(thorough bool, emit func(p program)) {
 	}
 	fams = append(fams, markerFams...)
 	if thorough {
-		longChains.n = 3
+		// thorough: the two-slot family with the full menu as in quick, and three slots over the reduced menu
+		longChains3 := longChains
+		longChains3.n, longChains3.actions = 3, actionsReduced
 		fams = []family{
 			engineFam,
 			longChains,
+			longChains3,
 			markerFams[0], markerFams[1],
 			{n: 3, phases: []int{1, 2, 5}, actions: actionsQuick, combined: "any", markers: []int{-1, 0, 1, 2, 3}, detOnly: []int{-1, 0, 1, 2, 3}},
 			// all five phases with three slots
